@@ -198,10 +198,26 @@ func (dl *datalog) del(key []byte) error {
 	return nil
 }
 
+// seal marks the segment as full and commits its contents.
+// Sync only covers the current segment, a sealed segment is never written or synced again.
+func (dl *datalog) seal(seg *segment) error {
+	if seg.meta.Full {
+		return nil
+	}
+	seg.meta.Full = true
+	if dl.segments[seg.id] != seg {
+		// The segment was removed by compaction.
+		return nil
+	}
+	return seg.Sync()
+}
+
 func (dl *datalog) writeRecord(data []byte, rt recordType) (uint16, uint32, error) {
 	if dl.curSeg.meta.Full || dl.curSeg.size+int64(len(data)) > int64(dl.opts.maxSegmentSize) {
 		// Current segment is full, create a new one.
-		dl.curSeg.meta.Full = true
+		if err := dl.seal(dl.curSeg); err != nil {
+			return 0, 0, err
+		}
 		if err := dl.swapSegment(); err != nil {
 			return 0, 0, err
 		}
